@@ -832,7 +832,7 @@ func grpcErrorToTrailer(bufferPool *bufferPool, trailer http.Header, protobuf Co
 		return
 	}
 	if connectErr, ok := asError(err); ok {
-		mergeErrorMetadata(trailer, connectErr.meta)
+		mergeMetadata(trailer, connectErr.meta)
 	}
 	trailer.Set(grpcHeaderStatus, code)
 	trailer.Set(grpcHeaderMessage, grpcPercentEncode(bufferPool, status.Message))
